@@ -473,6 +473,8 @@ class SP(Robot):
         self._top_joints_local = top_joints_copy
         self._bottom_joints_space = bottom_joints_space_new
         self._top_joints_space = top_joints_space_new
+        self._bottom_joints_init = self._bottom_joints_local.conj().transpose()
+        self._top_joints_init = self._top_joints_local.conj().transpose()
         self.move(old_base_pos)
 
 
